@@ -300,3 +300,34 @@ def canon_comprehension_vars(e):
 
     walk(e)
     return e
+
+
+def iteration_summaries(cfg, loop_stmt, start_env=None, value_only=False):
+    """Path summaries of ONE iteration of a loop: from the first statement of the body back to the loop head
+    (through the end of the body or a `continue`); iterations that leave the loop (break / return) are not included."""
+    head = cfg.node_of(loop_stmt)
+    starts = cfg.succ(head, "loop") if cfg.kind(head) == "for" else cfg.succ(head, "true")
+    out = []
+    g = cfg.g.subgraph([x for x in cfg.g.nodes if x != head])
+    body = cfg.loop_body_nodes(head)
+    preds = [p for p in cfg.g.predecessors(head) if p in body]
+    n = 0
+    for s in starts:
+        for p in preds:
+            if s not in g or p not in g:
+                continue
+            plist = [[s]] if s == p else nx.all_simple_paths(g, s, p)
+            for path in plist:
+                n += 1
+                if n > MAX_PATHS:
+                    raise OverflowError("more than %d paths" % MAX_PATHS)
+                full = [head] + list(path) + [head]
+                _VALUE_ONLY[0] = bool(value_only)
+                try:
+                    sm = summarise_path(cfg, full[:-1] + [head], start_env)
+                finally:
+                    _VALUE_ONLY[0] = False
+                if any((t, not pol) in sm.atoms for t, pol in sm.atoms if not t.startswith("<iter>")):
+                    continue
+                out.append(sm)
+    return out
